@@ -272,7 +272,7 @@ func reorgProperty(rt *rapid.T, ev *evid.Rec, o machineOpts, prop string) {
 			checkCommits(p, m.step(p))
 		}
 	}
-	nact := rapid.IntRange(3, scale(16, 40)).Draw(rt, "nactions")
+	nact := drawActions(rt, 3, 16, 40)
 	for i := 0; i < nact; i++ {
 		switch rapid.IntRange(0, 11).Draw(rt, "action") {
 		case 0:
